@@ -181,6 +181,8 @@ where
 {
     async fn listen(&mut self) -> io::Result<Option<Box<dyn http_codec::Stream>>> {
         loop {
+            #[cfg(feature = "verif_hooks")]
+            crate::verif::spin::tick("http1_codec::listen");
             let wait_read = async {
                 let mut buffer = self.state.take_buffer();
                 if buffer.is_empty() {
